@@ -143,9 +143,15 @@ def _run_chunk(args):
     return out
 
 
-def cases_random(seed, fam=None, policy=None, behaviour=None, variants=True, lazy=(True, False), cache=(True, False)):
+def cases_random(seed, fam=None, policy=None, behaviour=None, variants=True, lazy=(True, False), cache=(True, False), transport=None):
     rng = random.Random(f"scn|{seed}")
     scn = families.random_scenario(rng, **(fam or {}))
+    if transport == "local_gen":
+        # the shipped LocalProxy around simulators whose step() is a GENERATOR function (the in-process form of asynchronous
+        # requests) - most of their steps finish without yielding any request
+        scn = dict(scn, transport="local", sims=[dict(x, gen=True) for x in scn["sims"]])
+    elif transport:
+        scn = dict(scn, transport=transport)
     vs = list(families.variants(scn, lazy=lazy, cache=cache)) if variants else [scn]
     for v in vs:
         if (behaviour or {}).get("jump"):
